@@ -23,7 +23,9 @@ func strSchema(format string, minLen int64) spec.Schema {
 func genMixedPair() (*spec.Schema, interface{}) {
 	s := spec.Schema{}
 	var d interface{}
-	switch verifChoose(7) {
+	switch verifChoose(8) {
+	case 7: // no schema at all: nothing to validate
+		return nil, genObjValue()
 	case 0: // numbers
 		s.Type = spec.StringOrArray{"number"}
 		s.Maximum = ptrF(2)
